@@ -3,10 +3,15 @@
     arithmetic overflow, allocation requests): it is observed by the correspondence run
     (mutation sweep, random bytes, allocation monitor), not provable about a Gallina model,
     where every function is total by construction.  What IS proved: the validation the text
-    decoders must perform accepts only valid MOCs. *)
+    decoders must perform accepts only valid MOCs; and, for the faithful byte / character level
+    models of the FITS MOC reader and of the ASCII readers (compared with the code, verdict for
+    verdict, on written, mutated and assembled documents by the correspondence run), that the
+    bounded-fuel loops always have enough fuel: whatever the bytes, the model returns a MOC or
+    one of the code's own error values. *)
 From Coq Require Import List NArith.
 From MOC.Base Require Import RangeSet.
-From MOC.Model Require Import Qty Query Build Repr TextValid FitsGuards.
+From MOC.Model Require Import Qty Query Build Repr TextValid FitsGuards AsciiCodec AsciiProofs FitsCodec FitsProofs.
+From Coq Require Import Permutation Sorted.
 Import ListNotations.
 Open Scope N_scope.
 
@@ -24,6 +29,20 @@ Proof. exact accepted_items_in_domain. Qed.
 Theorem C12_accepted_cover : forall q w doc x,
   cov (text_decode q w doc) x <-> exists it, In it doc /\ inr (irange q w it) x.
 Proof. exact accepted_cover. Qed.
+
+(** the model of from_fits_ivoa (Model/FitsCodec.v: block reads, keyword loop, NUNIQ loop) never
+    exhausts its fuel: on EVERY byte string it returns a decoded MOC or an error value of the code *)
+Theorem C12_fits_reader_total : forall b, fits_read b <> FErr FFuel.
+Proof. exact fits_read_total. Qed.
+
+(** whatever the characters, a document the ASCII reader accepts is a valid, ascending, in-domain
+    element list of depth <= MAX_DEPTH (C07_ascii_reader_sound, restated for this property) *)
+Theorem C12_ascii_accepts_only_valid : forall (sortf : qty -> list aelem -> list aelem),
+  (forall q l, Permutation (sortf q l) l) ->
+  (forall q l, Sorted (fun a b => flat_leb q a b = true) (sortf q l)) ->
+  forall q w s dm l, from_ascii sortf q w s = AOk (dm, l) ->
+  dm <= max_depth q w /\ Forall (elem_wf q dm) l /\ asc 0 (map (erange q w) l).
+Proof. exact reader_sound. Qed.
 
 Example C12_nonvacuous :
   text_accept Hpx 64 [(0, (0, 12))] = true /\ text_accept Hpx 64 [(0, (0, 13))] = false /\
@@ -56,3 +75,5 @@ Print Assumptions C12_accepted_cover.
 Print Assumptions C12_skymap_header_arithmetic_total.
 Print Assumptions C12_multiordermap_header_arithmetic_total.
 Print Assumptions C12_skymap_guard_without_n_pack_refuted.
+Print Assumptions C12_fits_reader_total.
+Print Assumptions C12_ascii_accepts_only_valid.
